@@ -40,6 +40,19 @@ theorem C17_detector (f : Obj) :
   · rintro ⟨⟨⟨a, b⟩, c⟩, d⟩; exact ⟨a, b, c, d⟩
   · rintro ⟨a, b, c, d⟩; exact ⟨⟨⟨a, b⟩, c⟩, d⟩
 
+/-- … in particular a header attribute that is MISSING is not "as expected": without any one of the three, the file is not an
+    EMD 1.0 file, whatever else it holds -/
+theorem C17_missing_attribute (f : Obj)
+    (h : alookup "emd_group_type" f.attrs = none ∨ alookup "version_major" f.attrs = none ∨ alookup "version_minor" f.attrs = none) :
+    isEMDFile f = false := by
+  rw [Bool.eq_false_iff]
+  intro he
+  obtain ⟨a, b, c, _⟩ := (C17_detector f).mp he
+  rcases h with h | h | h
+  · rw [h] at a; cases a
+  · rw [h] at b; cases b
+  · rw [h] at c; cases c
+
 /-- a full-length dim dataset becomes the dim vector of its axis verbatim -/
 theorem C17_import_axis (ops : NumOps) (xs : List Num) (n : Nat) (h : xs.length = n) :
     unpackDim ops (.vec xs) n = .ok xs := C02_axis_full ops xs n h
